@@ -29,9 +29,22 @@ def generate(seed, tier):
     base = rng.choice(['hreal', 'hreal', 'hlow'])
     n = rng.randint(3, 40 if tier == 'thorough' else 28)
     shape = rng.choice(['random', 'two_chains', 'late_longer', 'ties', 'bushy', 'double_reorg'])
+    deep_m = 0
+    if rng.random() < 0.03:
+        # a side branch that starts 100 or more blocks below the tip of a long chain
+        shape = 'deep'
+        deep_m = rng.randint(100, 135)
+        n = deep_m + rng.randint(1, 6)
     ops = []
     for i in range(n):
-        if shape == 'random':
+        if shape == 'deep':
+            if i < deep_m:
+                p = i
+            elif i == deep_m:
+                p = rng.randrange(0, max(1, deep_m - 99))
+            else:
+                p = i if rng.random() < 0.8 else rng.randrange(i + 1)
+        elif shape == 'random':
             p = rng.randrange(i + 1)
         elif shape == 'two_chains':
             p = max(0, i - rng.choice([0, 0, 1, 1, 2]))
@@ -54,9 +67,10 @@ def generate(seed, tier):
                 p = third
             else:
                 p = i
-        ops.append({'op': 'add', 'parent': p, 'path': rng.choice(['validated', 'novalidation']),
+        ops.append({'op': 'add', 'parent': p, 'path': rng.choice(['validated', 'novalidation']) if not (shape == 'deep' and i < deep_m) else 'novalidation',
                     'dt': rng.randrange(1, 1000), 'miner': rng.randrange(12)})
-    return {'config': {'mode': 'tree', 'base': base, 'shape': shape}, 'ops': ops}
+    # every state is installed in a node's chain manager and read back from there (what the node reports)
+    return {'config': {'mode': 'tree', 'base': base, 'shape': shape, 'served': rng.random() < 0.3}, 'ops': ops}
 
 
 def generate_i(seed, tier, i):
@@ -83,10 +97,15 @@ def _check_state(res, cs, chain, stored, full):
             res.violate(PROP, 'C04/tips-differ', 'tip map entry does not hold its block')
             return False
     root_h = chain.blocks[stored[0]].height
-    todo = stored if full else stored[-3:]
+    todo = stored if full else stored[-3:] + stored[:2] + stored[len(stored) // 2:len(stored) // 2 + 1]
     for bid in todo:
         rb = chain.blocks[bid]
-        idx = cs.block_by_height_by_hash[bid]
+        try:
+            idx = cs.block_by_height_by_hash[bid]
+        except KeyError:
+            res.violate(PROP, 'C04/height-index-differs', 'there is no by-height index at stored block %s (height %d, head at %d)' % (
+                bid.hex()[:12], rb.height, ref_head.height))
+            return False
         anc = chain.ancestors(rb)
         if len(idx) != root_h + len(anc):
             res.violate(PROP, 'C04/height-index-differs', 'index at %s has %d entries, expected %d' % (
@@ -136,6 +155,25 @@ def _run_tree(script, res, trace):
     stored = [rules.block_id(root)]
     seen_heads = []
     ops = script['ops']
+    cm = None
+    if script['config'].get('served'):
+        from skepticoin.networking.local_peer import LocalPeer
+        lp = LocalPeer()
+        try:
+            cm = lp.chain_manager
+            cm.set_coinstate(cs)
+            res.bump('probe:state_served_by_chain_manager')
+            _run_ops(script, res, trace, cs, chain, stored, ops, base, cm)
+        finally:
+            lp.selector.close()
+        return
+    _run_ops(script, res, trace, cs, chain, stored, ops, base, cm)
+
+
+def _run_ops(script, res, trace, cs, chain, stored, ops, base, cm):
+    import skepticoin.consensus as consensus
+    from world import ledger as W
+    from refmodel import rules
     for n, op in enumerate(ops):
         rb = chain.blocks[stored[op['parent'] % len(stored)]]
         ts = rb.ts + max(1, op.get('dt', 1))
@@ -155,6 +193,9 @@ def _run_tree(script, res, trace):
         except Exception as e:
             res.violate(PROP, 'C04/arrival-raised', 'adding a block assembled by the node on a stored parent raised %s' % type(e).__name__)
             return
+        if cm is not None:
+            cm.set_coinstate(cs, validated=validated)
+            cs = cm.coinstate
         chain.add(blk)
         stored.append(bid)
         res.events += 1
@@ -167,6 +208,8 @@ def _run_tree(script, res, trace):
             res.bump('probe:reorganisation')
         if new_rb.height < old_rb.height:
             res.bump('probe:shorter_side_block')
+        if new_rb.height + 100 <= old_rb.height:
+            res.bump('probe:side_block_100_or_more_below_the_head')
         if not _check_state(res, cs, chain, stored, full=(n == len(ops) - 1 or n % 7 == 0)):
             return
     # distinct measure: canonical tree shape (sorted parent-height profile) x arrival
@@ -219,5 +262,6 @@ def describe():
                        'stub': ['scrypt stand-in', 'hollow base / real genesis root']},
         'assumptions': ['work = height, as the statement says', 'duplicate arrivals of a stored block are outside the quantifier'],
         'expected_probes': ['probe:tie_arrived', 'probe:reorganisation', 'probe:shorter_side_block',
+                            'probe:side_block_100_or_more_below_the_head', 'probe:state_served_by_chain_manager',
                             'enumerated_parent_choice_sequences'],
     }
